@@ -138,8 +138,8 @@ theorem windows_gap_unrepaired :
 /-! ### the agent's event queue: an impulse is applied exactly once -/
 
 /-- number of times impulse `id` has been applied after `n` steps -/
-def appliedCount (rule : PruneRule) (t : Nat → Rat) (d : Nat → List Imp) (n id : Nat) : Nat :=
-  ((runAgent rule t d n).fired.filter (· == id)).length
+def appliedCount (rule : PruneRule) (t : Nat → Rat) (d : Nat → List Imp) (n id : Nat) (tie : TieRule := .all) : Nat :=
+  ((runAgent rule t d n tie).fired.filter (· == id)).length
 
 /-- everything the run ever queues comes from a delivery -/
 private theorem mem_queue_of_run (rule : PruneRule) (t : Nat → Rat) (d : Nat → List Imp) (n : Nat) (x : Imp)
@@ -170,32 +170,19 @@ private theorem countP_and_eq (q : List Imp) (P : Imp → Bool) (I : Imp)
 private theorem fired_count (t0 t1 : Rat) (q : List Imp) (I : Imp)
     (hid : ∀ j ∈ q, j.id = I.id → j = I) :
     ((fire t0 t1 q).filter (· == I.id)).length
-      = if ((decide (t0 < I.time) || fpeEq I.time t0) && decide (I.time ≤ t1) && firstWithTime q I) then q.count I else 0 := by
+      = if ((decide (t0 < I.time) || fpeEq I.time t0) && decide (I.time ≤ t1)) then q.count I else 0 := by
   unfold fire
   rw [List.filter_map, List.length_map, ← List.countP_eq_length_filter, List.countP_filter]
-  have := countP_and_eq q (fun i => (decide (t0 < i.time) || fpeEq i.time t0) && decide (i.time ≤ t1) && firstWithTime q i) I hid
+  have := countP_and_eq q (fun i => (decide (t0 < i.time) || fpeEq i.time t0) && decide (i.time ≤ t1)) I hid
   simp only [Function.comp] at this ⊢
   rw [← this]
   apply List.countP_congr
   intro j _
   simp [Bool.and_comm]
 
-private theorem first_of_unique_time (q : List Imp) (I : Imp) (hI : I ∈ q)
-    (htime : ∀ j ∈ q, j.time = I.time → j = I) : firstWithTime q I = true := by
-  unfold firstWithTime
-  cases hf : q.find? (fun j => j.time == I.time) with
-  | none =>
-    have := List.find?_eq_none.mp hf I hI
-    simp at this
-  | some j =>
-    have hj := List.find?_some hf
-    have hjm := List.mem_of_find?_eq_some hf
-    have : j = I := htime j hjm (by simpa using hj)
-    subst this; simp
-
 /-- **an impulsive maneuver changes the velocity exactly once.**  Impulse `I` is handed to the
 agent in step `j` only (which is what `instant_event_*` guarantee for its event row), no other
-queued impulse shares its identifier or its instant, and its time `T` falls in the step
+queued impulse shares its identifier (others may share its instant), and its time `T` falls in the step
 `(t (m-1), t m]` with `j ≤ m ≤ N`.  Then after `N` steps it has been applied exactly once —
 for a time strictly inside a step, on a step boundary, or a hair before/after one. -/
 theorem impulse_once (t : Nat → Rat) (d : Nat → List Imp) (I : Imp) (j m N : Nat)
@@ -203,7 +190,6 @@ theorem impulse_once (t : Nat → Rat) (d : Nat → List Imp) (I : Imp) (j m N :
     (hj : 1 ≤ j) (hjm : j ≤ m) (hmN : m ≤ N)
     (hdel : (d j).count I = 1) (hdel' : ∀ k, k ≠ j → I ∉ d k)
     (hid : ∀ k, ∀ x ∈ d k, x.id = I.id → x = I)
-    (htime : ∀ k, ∀ x ∈ d k, x.time = I.time → x = I)
     (hT1 : t (m - 1) < I.time) (hT2 : I.time ≤ t m) :
     appliedCount .strict t d N I.id = 1 := by
   -- invariant over the number of completed steps
@@ -229,11 +215,6 @@ theorem impulse_once (t : Nat → Rat) (d : Nat → List Imp) (I : Imp) (j m N :
         rcases List.mem_append.mp hx with h | h
         · obtain ⟨k, _, _, hk⟩ := mem_queue_of_run .strict t d n x h; exact hid k x hk hxid
         · exact hid (n + 1) x h hxid
-      have hqtime : ∀ x ∈ a.queue ++ d (n + 1), x.time = I.time → x = I := by
-        intro x hx hxt
-        rcases List.mem_append.mp hx with h | h
-        · obtain ⟨k, _, _, hk⟩ := mem_queue_of_run .strict t d n x h; exact htime k x hk hxt
-        · exact htime (n + 1) x h hxt
       have hcnt_app : (a.queue ++ d (n + 1)).count I = (if j ≤ n ∧ n ≤ m then 1 else 0) + (if n + 1 = j then 1 else 0) := by
         rw [List.count_append, ihq]
         congr 1
@@ -260,8 +241,6 @@ theorem impulse_once (t : Nat → Rat) (d : Nat → List Imp) (I : Imp) (j m N :
         simp [runAgent, stepAgent, ha]
       have hpid : ∀ x ∈ prune .strict (t n) (a.queue ++ d (n + 1)), x.id = I.id → x = I := by
         intro x hx; exact hqid x (List.mem_filter.mp hx).1
-      have hptime : ∀ x ∈ prune .strict (t n) (a.queue ++ d (n + 1)), x.time = I.time → x = I := by
-        intro x hx; exact hqtime x (List.mem_filter.mp hx).1
       -- is T after the start of this step?
       have hlt_iff : t n < I.time ↔ n ≤ m - 1 := by
         constructor
@@ -320,8 +299,7 @@ theorem impulse_once (t : Nat → Rat) (d : Nat → List Imp) (I : Imp) (j m N :
         rw [hf', List.filter_append, List.length_append, ihc,
           fired_count (t n) (t (n + 1)) _ I hpid]
         by_cases hmem : I ∈ prune .strict (t n) (a.queue ++ d (n + 1))
-        · have hfirst := first_of_unique_time _ I hmem hptime
-          have hcntpos : (prune .strict (t n) (a.queue ++ d (n + 1))).count I = 1 := by
+        · have hcntpos : (prune .strict (t n) (a.queue ++ d (n + 1))).count I = 1 := by
             have hpos := List.count_pos_iff.mpr hmem
             rw [hprune, hcnt_app] at hpos ⊢
             by_cases h : t n < I.time
@@ -336,7 +314,7 @@ theorem impulse_once (t : Nat → Rat) (d : Nat → List Imp) (I : Imp) (j m N :
           have hlt : t n < I.time := by
             have := List.mem_filter.mp hmem
             simpa [prune] using this.2
-          rw [hfirst, hcntpos]
+          rw [hcntpos]
           have h' := hlt_iff.mp hlt
           by_cases h2 : I.time ≤ t (n + 1)
           · have := hle_iff.mp h2
@@ -377,10 +355,12 @@ theorem impulse_twice_unrepaired :
     appliedCount .strict (fun k => (k : Rat) * 60) (fun k => if k = 1 then [⟨7, 60⟩] else []) 3 7 = 1 := by
   decide +kernel
 
-/-- the hypothesis "no other queued impulse shares its instant" is needed: of two impulses of one
-agent at the same instant only the first is applied (scipy records one terminal event per stop) -/
-theorem coincident_impulses_one_lost :
-    appliedCount .strict (fun k => (k : Rat) * 60) (fun k => if k = 1 then [⟨7, 45⟩, ⟨8, 45⟩] else []) 2 8 = 0 := by
+/-- impulses of one agent at the same instant: the unrepaired propagator applied only the first (scipy records one
+terminal event per stop, the restart is past the others); the repaired one applies both -/
+theorem coincident_impulses :
+    appliedCount .strict (fun k => (k : Rat) * 60) (fun k => if k = 1 then [⟨7, 45⟩, ⟨8, 45⟩] else []) 2 8 .firstOnly = 0 ∧
+    appliedCount .strict (fun k => (k : Rat) * 60) (fun k => if k = 1 then [⟨7, 45⟩, ⟨8, 45⟩] else []) 2 8 = 1 ∧
+    appliedCount .strict (fun k => (k : Rat) * 60) (fun k => if k = 1 then [⟨7, 45⟩, ⟨8, 45⟩] else []) 2 7 = 1 := by
   decide +kernel
 
 /-! ### non-vacuity -/
